@@ -328,6 +328,7 @@ pub(crate) fn mode(entry: &VfsEntry, octal: u32, sym: &str) -> RvResult<u32> {
     let mut mode = entry.mode();
     let mut group = 0;
     let mut op = '0';
+    let mut applies = true;
     let mut chars: Vec<char> = sym.chars().rev().collect();
 
     let mut state = State::Target;
@@ -336,14 +337,16 @@ pub(crate) fn mode(entry: &VfsEntry, octal: u32, sym: &str) -> RvResult<u32> {
             State::Target => {
                 group = 0; // reset group for next chmod
                 op = '0'; // reset op for next chmod
+                applies = true; // reset target match for next chmod
 
                 loop {
                     if c != 'd' && c != 'f' && c != 'a' && c != ':' {
                         return Err(VfsError::InvalidChmodTarget(sym.to_string()).into());
                     }
                     if entry.is_symlink() || (c == 'd' && !entry.is_dir()) || (c == 'f' && !entry.is_file()) {
-                        return Ok(mode); // target mismatch so just return the original mode
-                    } else if c == ':' {
+                        applies = false; // target mismatch so this clause is checked but not applied
+                    }
+                    if c == ':' {
                         state = State::Group;
                         break;
                     }
@@ -371,6 +374,9 @@ pub(crate) fn mode(entry: &VfsEntry, octal: u32, sym: &str) -> RvResult<u32> {
                 }
                 if op == '0' {
                     return Err(VfsError::InvalidChmodOp(sym.to_string()).into());
+                }
+                if chars.is_empty() {
+                    return Err(VfsError::InvalidChmodPermissions(sym.to_string()).into());
                 }
             },
             State::Perms => {
@@ -403,10 +409,12 @@ pub(crate) fn mode(entry: &VfsEntry, octal: u32, sym: &str) -> RvResult<u32> {
                 }
 
                 // Process permission
-                match op {
-                    '-' => mode &= !(group & perm),
-                    '+' => mode |= group & perm,
-                    _ => mode = (!group & mode) | (group & perm),
+                if applies {
+                    match op {
+                        '-' => mode &= !(group & perm),
+                        '+' => mode |= group & perm,
+                        _ => mode = (!group & mode) | (group & perm),
+                    }
                 }
             },
         }
